@@ -11,6 +11,7 @@ import (
 	"time"
 
 	"github.com/tyler-sommer/stick"
+	"github.com/tyler-sommer/stick/parse"
 
 	"verif/core"
 )
@@ -263,7 +264,75 @@ func (l *c03ReaderLoader) Load(name string) (stick.Template, error) {
 
 const c03ReaderBehaviours = 8
 
+// c03Fresh: a template file is rewritten between two executions on the same environment and FilesystemLoader (same
+// length, same modification time, or another length): the second execution emits the text that is in the file now.
+func c03Fresh(pair, how int) core.Result {
+	versions := [][2]string{{"hello one", "hello two"}, {"a{{ v }}b", "c{{ v }}d"}, {"x{# c1 #}y", "x{# c2 #}z"}, {"{% verbatim %}{{ 1 }}{% endverbatim %}", "{% verbatim %}{{ 2 }}{% endverbatim %}"}, {"short", "a longer text"}, {"p{% include 'part.twig' %}q", "p{% include 'part.twig' %}r"}}[pair]
+	wants := [][2]string{{"hello one", "hello two"}, {"aVb", "cVd"}, {"xy", "xz"}, {"{{ 1 }}", "{{ 2 }}"}, {"short", "a longer text"}, {"p(1)q", "p(2)r"}}[pair]
+	dir := fsFreshDir("c03fresh")
+	fsPut(dir, "part.twig", "(1)")
+	fsPut(dir, "t.twig", versions[0])
+	env := stick.New(stick.NewFilesystemLoader(dir))
+	ctx := map[string]stick.Value{"v": "V"}
+	o1, e1, p1 := tryExec(env, "t.twig", ctx)
+	if how == 1 { // executed a few more times before the edit
+		for i := 0; i < 3; i++ {
+			tryExec(env, "t.twig", ctx)
+		}
+	}
+	fsPut(dir, "part.twig", "(2)")
+	fsPut(dir, "t.twig", versions[1])
+	o2, e2, p2 := tryExec(env, "t.twig", ctx)
+	if p1 != "" || p2 != "" || e1 != nil || e2 != nil {
+		return core.Violation("error", fmt.Sprintf("filesystem loader, %q then %q: %v %v %s %s", versions[0], versions[1], e1, e2, p1, p2))
+	}
+	if o1 != wants[0] || o2 != wants[1] {
+		return core.Violation("output", fmt.Sprintf("filesystem loader: the file holds %q and renders %q; rewritten to %q (modification time unchanged) it renders %q, want %q", versions[0], o1, versions[1], o2, wants[1]))
+	}
+	return core.Okay(true, o2)
+}
+
+// c03Visitor: another environment of the process has a node visitor that rewrites literal text (as visitors may); the
+// plain environment that renders the same source afterwards still emits the text byte for byte - and so does the
+// first environment when it renders the template a second time with a visitor that is not idempotent.
+type c03TextVisitor struct{ f func(string) string }
+
+func (v *c03TextVisitor) Enter(n parse.Node) {
+	if t, ok := n.(*parse.TextNode); ok {
+		t.Data = v.f(t.Data)
+	}
+}
+func (v *c03TextVisitor) Leave(parse.Node) {}
+
+func c03Visitor(src, want string) core.Result {
+	upper := stick.New(nil)
+	upper.Visitors = append(upper.Visitors, &c03TextVisitor{strings.ToUpper})
+	ctx := map[string]stick.Value{"v": "V", "x": "X"}
+	u1, _, _ := tryExec(upper, src, ctx)
+	wrap := stick.New(nil)
+	wrap.Visitors = append(wrap.Visitors, &c03TextVisitor{func(s string) string { return "<" + s + ">" }})
+	w1, _, _ := tryExec(wrap, src, ctx)
+	w2, _, _ := tryExec(wrap, src, ctx)
+	out, err, pan := tryExec(c03Env(), src, ctx)
+	if pan != "" || err != nil {
+		return core.Violation("error", fmt.Sprintf("%q after it was rendered by environments with text visitors: %v %s", src, err, pan))
+	}
+	if out != want {
+		return core.Violation("output", fmt.Sprintf("%q renders %q on a plain environment after an environment with an upper-casing text visitor rendered the same source (%q); want %q", src, out, u1, want))
+	}
+	if w1 != w2 {
+		return core.Violation("output", fmt.Sprintf("%q on an environment whose visitor wraps literal text renders %q the first time and %q the second", src, w1, w2))
+	}
+	return core.Okay(true, out)
+}
+
 func c03Run(c core.Case) core.Result {
+	if c.Fam == "fresh" {
+		return c03Fresh(c.N[0], c.N[1])
+	}
+	if c.Fam == "visitor" {
+		return c03Visitor(c.Src, c.Exp)
+	}
 	env := c03Env()
 	name := c.Src
 	if len(c.N) > 0 && c.N[0] > 0 && c.N[0] < 100 {
@@ -422,6 +491,28 @@ func c03Levels(tier string) []core.Level {
 				c03Emit(with, a, "seq")
 			}
 			with(core.Case{Fam: "text", Src: strings.Repeat("long text ", 500), Exp: strings.Repeat("long text ", 500)})
+		}},
+		{Name: "histories: a template file rewritten between two executions on one environment and FilesystemLoader (6 pairs of versions, same length and modification time or another length; edited after 1 or 4 executions); every leaf and leaf pair rendered by a plain environment after environments with text-rewriting node visitors rendered the same source", Gen: func(emit func(core.Case)) {
+			for pair := 0; pair < 6; pair++ {
+				for how := 0; how < 2; how++ {
+					emit(core.Case{Fam: "fresh", N: []int{pair, how}})
+				}
+			}
+			ls := c03Leaves(false)
+			for i, a := range ls {
+				p := c03Concat(c03Text("t"), a, c03Text("u"))
+				if !p.unintended(false) {
+					emit(core.Case{Fam: "visitor", Src: p.src(false), Exp: p.out})
+				}
+				if i%7 == 0 {
+					for _, b := range ls {
+						q := c03Concat(a, c03Text(" mid "), b)
+						if !q.unintended(false) {
+							emit(core.Case{Fam: "visitor", Src: q.src(false), Exp: q.out})
+						}
+					}
+				}
+			}
 		}},
 		{Name: "reader behaviours: every sequence of <= 3 chunks and every leaf pair, delivered by a reader that returns one byte at a time / its last data together with io.EOF / half of what is asked / both / (0, nil) on every other call / a seekable reader (*strings.Reader, *bytes.Reader, *os.File) that the host has advanced past a header", Gen: func(emit func(core.Case)) {
 			with := func(c core.Case) {
